@@ -323,7 +323,7 @@ def delta(i, j):
 # ---------------------------------------------------------------------------------------
 # symbolic set-up
 # ---------------------------------------------------------------------------------------
-CENTERS = {1: {"c": [[0.0], [2.0], [3.6]], "t": [[1.0], [-1.2]]},
+CENTERS = {1: {"c": [[0.0], [2.0], [3.6]], "t": [[1.0], [-1.2], [5.0], [-2.6], [6.4]]},
            2: {"c": [[0.0, 0.0], [2.0, 0.5], [0.7, 2.2]], "t": [[1.0, 1.0], [-0.8, 1.4]]},
            3: {"c": [[0.0, 0.0, 0.0], [2.0, 0.5, 0.3], [0.7, 2.2, -0.4]], "t": [[1.0, 1.0, 1.0], [-0.8, 1.4, 0.5]]}}
 
